@@ -390,6 +390,9 @@ impl WorldB {
         }
         addrs.truncate(32);
         let now = Duration::from_millis(self.sv_ms);
+        // (expmix: a backend whose tokens do not all live equally long — every third one lives twice, every other third three
+        // times as long — so that an address may hold a long-lived token while a shorter-lived one of its own runs out)
+        let expire_secs = if self.cfg.get("expmix") == 1 { expire_secs * (1 + tag % 3) } else { expire_secs };
         let mut token = ConnectToken::generate(now, protocol, expire_secs, id, timeout, addrs.clone(), Some(&user_data), &key).expect("token generation");
         if variant == 5 {
             // the holder of a token sealed for another protocol id controls the clear-text copy of that field
@@ -552,6 +555,9 @@ pub fn gen_cfg(family: &str, rng: &mut Rng) -> Cfg {
     cfg.set("timeout", *rng.pick(&[1u64, 2, 5, 5, 15, 0xFFFF_FFFF])); // last = -1 (disabled)
     cfg.set("expire", *rng.pick(&[1u64, 2, 5, 30, 30, 300]));
     cfg.set("dead", *rng.pick(&[0u64, 0, 0, 1, 2]));
+    if cfg.get("expire") <= 5 && rng.chance(1, 3) {
+        cfg.set("expmix", 1);
+    }
     if cfg.get("dead") == 2 && rng.chance(1, 2) {
         cfg.set("deaddup", 1);
     }
